@@ -3,8 +3,8 @@ package c08
 
 import (
 	"errors"
-	"os"
 	"fmt"
+	"os"
 	"regexp"
 	"strconv"
 	"strings"
@@ -95,7 +95,7 @@ func gen(t *rapid.T) Case {
 	// costing at most the generated delay, the read-loop sleep and one dequeue period of the
 	// NETCONF loop. Timeouts are drawn above it so that "sent in full before the deadline"
 	// implies "can be delivered before the deadline".
-	transitUS := int64(600/minChunk+4) * (maxDelay/1000 + 2*100) + 1000
+	transitUS := int64(600/minChunk+4)*(maxDelay/1000+2*100) + 1000
 
 	maxN := 12
 	if minChunk == 1 {
@@ -266,7 +266,11 @@ func run(c Case) ev.Verdict {
 		elapsed := time.Since(t0)
 		_ = elapsed
 
-		wantID := strconv.Itoa(101 + i)
+		// the id this call's request carried on the wire (requests are issued one at a time)
+		wantID := ""
+		if i < len(srv.Requests) {
+			wantID = srv.Requests[i].MessageID
+		}
 
 		if err != nil {
 			if os.Getenv("DBG_CASE") != "" {
@@ -319,20 +323,25 @@ func run(c Case) ev.Verdict {
 		}
 	}
 
-	// ids seen by the server: strictly increasing from 101, one per call
+	// ids seen by the server: one per call, unique and strictly increasing (the start is not fixed)
 	if len(srv.Requests) != len(c.RPCs) {
 		return ev.Fail("server saw %d requests for %d calls (broken framing: %q)", len(srv.Requests), len(c.RPCs), srv.Broken)
 	}
 
-	for i, r := range srv.Requests {
-		if r.MessageID != strconv.Itoa(101+i) {
+	prevID := 0
+
+	for _, r := range srv.Requests {
+		n, aerr := strconv.Atoi(r.MessageID)
+		if aerr != nil || n <= prevID {
 			ids := []string{}
 			for _, q := range srv.Requests {
 				ids = append(ids, q.MessageID)
 			}
 
-			return ev.Fail("message-ids seen by the server %v are not 101,102,...", ids)
+			return ev.Fail("message-ids seen by the server %v are not strictly increasing numbers", ids)
 		}
+
+		prevID = n
 	}
 
 	if lateThenNormal {
